@@ -275,6 +275,7 @@ type Out struct {
 	ErrB  string `json:"errb,omitempty"`
 	Msg   string `json:"msg,omitempty"`
 	Lines []string `json:"lines,omitempty"`
+	Strict bool    `json:"strict,omitempty"` // pure time-range query: both answers must also equal Exp
 }
 
 func idxOf(series []qSeries) ([]int, error) {
@@ -393,10 +394,12 @@ func workload(sa, sb *server, both func(db, q string) error, emit func(Out), fai
 	var batches [][]int
 	idx := 0
 	seenGood := map[string]bool{}
+	usedExact := map[string]bool{}
 	for b := 0; b < nb; b++ {
 		var batch []int
 		n := r.Range(6, 12)
-		hour := int64(b / 5) // three shard groups
+		// three shard groups, created out of order: the first writes go to the middle hour, then the earlier one, then the later
+		hour := []int64{1, 1, 0, 2, 0, 1, 2, 0, 2, 1, 0, 1, 2, 0}[b%14]
 		for i := 0; i < n; i++ {
 			m := gen.Pick(r, msts)
 			if i > 0 && r.Chance(1, 3) {
@@ -417,6 +420,24 @@ func workload(sa, sb *server, both func(db, q string) error, emit func(Out), fai
 			rw.Time = base + hour*int64(time.Hour) + int64(r.Intn(3000))*int64(time.Second) + int64(idx)
 			if r.Chance(1, 6) {
 				rw.Time = base + (hour+1)*int64(time.Hour) - 1 - int64(idx) // just before the next group
+			}
+			if r.Chance(1, 8) {
+				// exactly on the group boundary: the first instant of the group (one row per series there, so that no row
+				// overwrites another)
+				t := base + hour*int64(time.Hour)
+				switch r.Intn(3) {
+				case 0:
+					t = base + (hour+1)*int64(time.Hour) - 1 // the last instant of the group
+				case 1:
+					if i > 0 {
+						t = base + (hour+1)*int64(time.Hour) // the first instant of the NEXT group, after rows of this one
+					}
+				}
+				key := fmt.Sprintf("%s|%v|%d", m, rw.Tags, t)
+				if !usedExact[key] {
+					usedExact[key] = true
+					rw.Time = t
+				}
 			}
 			rw.Use = float64(r.Intn(11)) * 0.5
 			if i > 0 && i < n-1 && seenGood[m] && r.Chance(1, 8) {
@@ -484,15 +505,32 @@ func workload(sa, sb *server, both func(db, q string) error, emit func(Out), fai
 		}
 	}
 	// ---- queries
-	type qspec struct{ mst, cond string }
+	type qspec struct {
+		mst, cond string
+		strict    bool
+	}
 	var qs []qspec
 	for _, m := range msts {
-		qs = append(qs, qspec{m, ""})
+		qs = append(qs, qspec{mst: m})
 	}
 	// the shapes of the four defects, always
-	qs = append(qs, qspec{"cpu", "host = 'h1' OR usage > 4"}, qspec{"cpu", "host = 'h0' OR host = 'h1' OR host = 'h2'"},
-		qspec{"mem", "region = 'r1'"}, qspec{"mem", "region = 'r0' OR region = 'r2'"}, qspec{"cpu", "host = 'h3'"},
-		qspec{"cpu", "region = 'r2'"}, qspec{"net", "host = 'h2' AND (dc = 'd0' OR dc = 'd1')"}, qspec{"net", "dc = 'd1' AND host = 'h4'"})
+	qs = append(qs, qspec{mst: "cpu", cond: "host = 'h1' OR usage > 4"}, qspec{mst: "cpu", cond: "host = 'h0' OR host = 'h1' OR host = 'h2'"},
+		qspec{mst: "mem", cond: "region = 'r1'"}, qspec{mst: "mem", cond: "region = 'r0' OR region = 'r2'"}, qspec{mst: "cpu", cond: "host = 'h3'"},
+		qspec{mst: "cpu", cond: "region = 'r2'"}, qspec{mst: "net", cond: "host = 'h2' AND (dc = 'd0' OR dc = 'd1')"}, qspec{mst: "net", cond: "dc = 'd1' AND host = 'h4'"})
+	// time ranges that start or end exactly on a shard-group boundary (and one nanosecond off). No field or tag operator is
+	// involved, so the answer must ALSO equal the brute-force evaluation over the acknowledged rows (strict)
+	for _, m := range []string{"cpu", "disk"} {
+		for _, k := range []int64{1, 2} {
+			bnd := strconv.FormatInt(base+k*int64(time.Hour), 10)
+			bm1 := strconv.FormatInt(base+k*int64(time.Hour)-1, 10)
+			prev := strconv.FormatInt(base+(k-1)*int64(time.Hour), 10)
+			for _, c := range []string{"time >= " + bnd, "time > " + bnd, "time < " + bnd, "time <= " + bnd, "time <= " + bm1,
+				"time >= " + bm1 + " AND time <= " + bnd, "time >= " + prev + " AND time < " + bnd, "time > " + prev + " AND time <= " + bnd,
+				"time = " + bnd} {
+				qs = append(qs, qspec{mst: m, cond: c, strict: true})
+			}
+		}
+	}
 	// hint queries name one full series: every tag of the series is bound by equality
 	type hq struct{ mst, cond string }
 	var hints []hq
@@ -507,7 +545,7 @@ func workload(sa, sb *server, both func(db, q string) error, emit func(Out), fai
 	}
 	if os.Getenv("C11BB_HINTS") != "" {
 		for _, h := range hints {
-			qs = append(qs, qspec{h.mst, "/*+ full_series */" + h.cond})
+			qs = append(qs, qspec{mst: h.mst, cond: "/*+ full_series */" + h.cond})
 		}
 	}
 	for i := 0; i < nq; i++ {
@@ -518,7 +556,7 @@ func workload(sa, sb *server, both func(db, q string) error, emit func(Out), fai
 			hi := lo + int64(r.Range(1, 2))*int64(time.Hour)
 			cond = "(" + cond + ") AND time >= " + strconv.FormatInt(lo, 10) + " AND time < " + strconv.FormatInt(hi, 10)
 		}
-		qs = append(qs, qspec{gen.Pick(r, msts), cond})
+		qs = append(qs, qspec{mst: gen.Pick(r, msts), cond: cond})
 	}
 	for _, q := range qs {
 		text := `SELECT idx, usage FROM "` + q.mst + `"`
@@ -529,7 +567,7 @@ func workload(sa, sb *server, both func(db, q string) error, emit func(Out), fai
 		if q.cond != "" {
 			text += " WHERE " + q.cond
 		}
-		o := Out{Kind: "query", DB: db, Mst: q.mst, Q: text, A: []int{}, B: []int{}, Exp: []int{}}
+		o := Out{Kind: "query", DB: db, Mst: q.mst, Strict: q.strict, Q: text, A: []int{}, B: []int{}, Exp: []int{}}
 		if ser, err := sa.query(db, text); err != nil {
 			o.ErrA = err.Error()
 		} else if o.A, err = idxOf(ser); err != nil {
